@@ -76,10 +76,12 @@ def check_case(out, rng, px, py, par_kw, sess, pending):
     out.oracle_violation(dict(facts, symptom='not-homogeneous'), dict(case, c=c),
                          f'scaling the response unit by {c} changes required impact {ri} -> {float(d2.required_impact)} (want {c * ri})')
     return
-  k = rng.choice([1000.0, -250.0, 12345.0])
+  k = rng.choice([1000.0, -250.0, 12345.0, 1e6, 1e9, 4e9])
   d3 = tbrmmdiagnostics.TBRMMDiagnostics(py + k, par)
   d3.x = px + rng.choice([0.0, k])
-  if not en.close(float(d3.required_impact), ri, 1e-8):
+  # representing the shifted values costs about one ulp of the level per point: the tolerance follows the level
+  shift_tol = max(1e-8, 50 * abs(k) * 2.3e-16 / max(float(np.std(py)), 1e-300))
+  if not en.close(float(d3.required_impact), ri, shift_tol):
     out.oracle_violation(dict(facts, symptom='not-shift-invariant'), dict(case, k=k),
                          f'a level shift of {k} changes required impact {ri} -> {float(d3.required_impact)}')
     return
@@ -134,7 +136,7 @@ def run(out, tier, model_ok=True):
   out.rule = ('pre-period series from generated experiment frames (n 4-21), n_test in {1,2,7,14,28}, sig/power/flevel over their domains '
               '(every 5th case sig + power <= 1); per case: (a) the analysis-side TBR is run on a synthetic test period whose control mean is '
               'displaced by the planning amount (both signs) and whose lift equals the required impact: impact = (tq_sig+tq_pow) x scale, '
-              'estimate = impact, one-sided lower bound = tq_pow x scale; (b) scaling by 2^k; (c) level shift; (d) monotone in |corr| on a '
+              'estimate = impact, one-sided lower bound = tq_pow x scale; (b) scaling by 2^k; (c) level shifts up to 4e9 (tolerance follows the level); (d) monotone in |corr| on a '
               '9-point grid; model correspondence of corr / impact / sigma / tbrfit; distinct by (n, n_test, impact)')
   out.extra.update({'cases': n_cases, 'model_compared': len(pending)})
   if pending:
